@@ -223,7 +223,7 @@ def format_cases(rng):
     # RFC 3339 section 5.6: date-time = full-date "T" full-time, "T"/"Z" in either case, time-secfrac = "." 1*DIGIT, hour 00-23, minute 00-59, second 00-60 (leap second),
     # time-numoffset = ("+" / "-") hour ":" minute; the date is a day of the calendar
     dt_ok = ["2020-01-01T00:00:00Z", "2020-02-29T23:59:59+02:00", "2020-01-01t00:00:00z", "2020-01-01T00:00:00.5Z", "2020-01-01T00:00:00.123456789-23:59", "2016-12-31T23:59:60Z",
-             "2016-12-31T15:59:60.7-08:00", "1985-04-12T23:20:50.52Z", "1996-12-19T16:39:57-08:00", "1937-01-01T12:00:27.87+00:20"]
+             "2016-12-31T15:59:60.7-08:00", "2017-01-01T08:59:60+09:00", "2017-01-01T00:29:60+00:30", "2016-12-31T18:59:60-05:00", "1985-04-12T23:20:50.52Z", "1996-12-19T16:39:57-08:00", "1937-01-01T12:00:27.87+00:20"]
     dt_bad = ["2021-02-29T00:00:00Z", "2020-01-01 00:00:00", "2020-01-01", "", "2020-01-01T00:00:00,5Z", "2020-01-01T00:00:00.5+24:00", "2020-01-01T00:00:00+23:60", "2020-01-01T1:00:00Z",
               "2020-01-01T24:00:00Z", "2020-01-01T00:60:00Z", "2020-01-01T00:00:61Z", "2020-01-01T00:00:00", "2020-01-01T00:00:00.Z", "2020-13-01T00:00:00Z", "2020-01-01T00:00:00+0100",
               "2020-01-01T00:00:00Zx", " 2020-01-01T00:00:00Z", "20200101T000000Z"]
